@@ -82,6 +82,10 @@ enum Kind {
     /// busy with a task that never completes and owns what a `spawn_blocking` helper on the same runtime
     /// waits for (the sending half of a channel): the helper ends only when the task is dropped
     Feeding,
+    /// its thread is inside a task when the system is stopped (held until `run` has returned) and several
+    /// hundred commands are queued behind that task: every one of them was accepted (`spawn` on a live
+    /// arbiter returns true whatever the backlog), and the system's `Stop` queues up behind them
+    Backlog,
 }
 
 #[derive(Clone, PartialEq, Debug)]
@@ -183,6 +187,8 @@ struct Scenario {
     has_batch: bool,
     /// c09: `sysfeed`: the SYSTEM ARBITER hosts a feeding task (see `Kind::Feeding`)
     sysfeed: bool,
+    /// c09: `retire i j …`: once all arbiters exist, these are stopped and joined, in this order
+    retire: Vec<usize>,
     /// c09: arbiter whose process-wide number is made equal to the system's id
     align: Option<usize>,
     /// c10: number of command targets (arbiters incl. the system arbiter)
@@ -358,6 +364,9 @@ struct ArbSlot {
     joined: Option<&'static str>,
     /// thread name seen by the guard task (None: the guard never started)
     name: Arc<Mutex<Option<String>>>,
+    /// `backlog`: releases the task that holds the thread / how many of the queued commands were refused
+    release: Option<mpsc::Sender<()>>,
+    refused: usize,
 }
 
 struct Out {
@@ -374,6 +383,8 @@ fn custom_tokio_rt() -> tokio::runtime::Runtime {
 /// how long the slow runtime factory of `rt=slow` takes on the new arbiter's thread, in front of the
 /// registration: `Arbiter::with_tokio_rt` must not return before the arbiter is registered however long
 const SLOW_FACTORY: Duration = Duration::from_millis(350);
+/// commands queued behind the held task of a `backlog` arbiter
+const BACKLOG: usize = 1100;
 
 fn new_arbiter(custom: bool, slow: bool) -> Arbiter {
     if slow {
@@ -439,7 +450,26 @@ fn make_slot(k: Kind, rng: &mut Rng, custom: bool, slow: bool, after_new: &mut d
     });
     let mut joined = None;
     let mut early = None;
+    let mut release = None;
+    let mut refused = 0;
     let arb = match k {
+        Kind::Backlog => {
+            let (tx, rx) = mpsc::channel::<()>();
+            let st = Arc::new(AtomicBool::new(false));
+            let st2 = st.clone();
+            handle.spawn_fn(move || {
+                st2.store(true, Ordering::SeqCst);
+                let _ = rx.recv_timeout(Duration::from_secs(8));
+            });
+            wait_flag(&st, Duration::from_secs(2));
+            // owner and handle alternate; more than any "reasonable" queue bound
+            for i in 0..BACKLOG {
+                let ok = if i % 2 == 0 { arb.spawn_fn(|| {}) } else { handle.spawn(async {}) };
+                refused += !ok as usize;
+            }
+            release = Some(tx);
+            Some(arb)
+        }
         Kind::Early => {
             jitter(rng);
             early = Some(arb.stop());
@@ -480,7 +510,7 @@ fn make_slot(k: Kind, rng: &mut Rng, custom: bool, slow: bool, after_new: &mut d
             Some(arb)
         }
     };
-    (ArbSlot { arb, handle, ended, joined, name }, early)
+    (ArbSlot { arb, handle, ended, joined, name, release, refused }, early)
 }
 
 /// `System::stop()` is `stop_with_code(0)`: both spellings are used
@@ -530,6 +560,10 @@ fn entry_hb(entries: &[Entry], b: usize, j: usize) -> bool {
 /// join every arbiter that still has its owner object (watchdog; shorter once one has hung), wait for the
 /// loop-ended guards, try a send: (joins, ended, post, hung)
 fn join_all_c09(slots: &mut [ArbSlot]) -> (Vec<&'static str>, Vec<bool>, Vec<bool>, bool) {
+    // the held threads are let go: what was queued behind them is found in one go, the system's `Stop` last
+    for s in slots.iter_mut() {
+        s.release.take();
+    }
     let mut joins = vec![];
     let mut hung = false;
     for s in slots.iter_mut() {
@@ -564,6 +598,7 @@ fn exec_c09(sc: &Scenario, mode_run: bool, block: bool, jseed: u64) -> Out {
     let custom = sc.custom_rt;
     let slow = sc.slow_rt;
     let sysfeed = sc.sysfeed;
+    let retire = sc.retire.clone();
     let plain = (jseed >> 3) & 1 == 0;
     let mut rng = Rng::new(jseed);
     let late: Late = Arc::new(Mutex::new(vec![]));
@@ -623,7 +658,7 @@ fn exec_c09(sc: &Scenario, mode_run: bool, block: bool, jseed: u64) -> Out {
         // is issued in the very next statement after the last `Arbiter::new()` returned — the
         // tightest race between that arbiter's `Register` and the `Exit`
         let imm_code = match sys_issuers.first() {
-            Some((0, e, _, _)) if jseed % 3 == 0 && !inside && e.origin == Origin::SysPre && e.actions.len() == 1 => match e.actions[0] {
+            Some((0, e, _, _)) if jseed % 3 == 0 && !inside && retire.is_empty() && e.origin == Origin::SysPre && e.actions.len() == 1 => match e.actions[0] {
                 Action::Stop(c) => Some(c),
                 _ => None,
             },
@@ -648,6 +683,16 @@ fn exec_c09(sc: &Scenario, mode_run: bool, block: bool, jseed: u64) -> Out {
                     early.push(e);
                 }
                 slots.push(slot);
+            }
+            // `retire`: now that all of them exist (and are registered), some stop and are joined — their
+            // `Deregister`s reach the controller in this order, in front of every `Exit`
+            for k in &retire {
+                jitter(&mut rng_c);
+                let sl: &mut ArbSlot = &mut slots[*k];
+                if let Some(a) = sl.arb.take() {
+                    early.push(a.stop());
+                    sl.joined = Some(join_watchdog(a, WATCHDOG));
+                }
             }
             (slots, early, immediate_done)
         };
@@ -884,6 +929,10 @@ fn exec_c09(sc: &Scenario, mode_run: bool, block: bool, jseed: u64) -> Out {
             if early_ret == Some(false) && matches!(e.origin, Origin::SysPre | Origin::SysTask) {
                 late_t3.push("stop() on a freshly created arbiter returned false".into());
             }
+            slot.release.take();
+            if slot.refused > 0 {
+                late_t3.push(format!("{} of {BACKLOG} spawn / spawn_fn calls on a live arbiter (created by the batch, its thread held by a task) returned false", slot.refused));
+            }
             let started = Arc::new(AtomicBool::new(false));
             let st = started.clone();
             let accepted = res.is_ok() && slot.handle.spawn_fn(move || st.store(true, Ordering::SeqCst));
@@ -969,6 +1018,11 @@ fn exec_c09(sc: &Scenario, mode_run: bool, block: bool, jseed: u64) -> Out {
     }
     if early.iter().any(|b| !b) {
         t3.push(("C09".into(), "stop() on a freshly created arbiter returned false".into()));
+    }
+    for (k, sl) in slots.iter().enumerate() {
+        if sl.refused > 0 {
+            t3.push(("C09".into(), format!("arbiter {k} ({:?}): {} of {BACKLOG} spawn / spawn_fn calls on the live arbiter (its thread held by a task) returned false", kinds[k], sl.refused)));
+        }
     }
     for (b, e) in entries.iter().enumerate() {
         if e.origin == Origin::SysPre && e.news() > 0 && !ran[b] && res.is_ok() {
@@ -2152,14 +2206,30 @@ fn feed(sc: &mut Scenario, ws: &[&str]) -> LineRes {
                 "running" => Kind::Running,
                 "busy" => Kind::Busy,
                 "feeding" => Kind::Feeding,
+                "backlog" => Kind::Backlog,
                 "done" => Kind::Done,
                 _ => return bad(),
             };
-            if sc.kinds.len() >= 3 || !sc.entries.is_empty() || sc.align.is_some() {
+            if sc.kinds.len() >= 6 || !sc.entries.is_empty() || sc.align.is_some() || !sc.retire.is_empty() {
                 return bad();
             }
             sc.kinds.push(kind);
             LineRes::Plain(format!("ok a{}", sc.kinds.len() - 1))
+        }
+        (9, ["retire", rest @ ..]) => {
+            // arbiters that are alive and have their owner object, each once; before the stops
+            let ks: Option<Vec<usize>> = rest.iter().map(|x| parse_nat(x)).collect();
+            let Some(ks) = ks else { return bad() };
+            let ok = !ks.is_empty()
+                && sc.retire.is_empty()
+                && sc.entries.is_empty()
+                && ks.iter().all(|k| *k < sc.kinds.len() && matches!(sc.kinds[*k], Kind::Running | Kind::Busy | Kind::Feeding))
+                && (0..ks.len()).all(|i| !ks[..i].contains(&ks[i]));
+            if !ok {
+                return bad();
+            }
+            sc.retire = ks;
+            LineRes::Plain("ok".into())
         }
         (9, ["sysfeed"]) => {
             if sc.sysfeed || !sc.entries.is_empty() {
@@ -2215,6 +2285,7 @@ fn feed(sc: &mut Scenario, ws: &[&str]) -> LineRes {
                         "nr" => Action::New(Kind::Running),
                         "nb" => Action::New(Kind::Busy),
                         "nf" => Action::New(Kind::Feeding),
+                        "nk" => Action::New(Kind::Backlog),
                         "nd" => Action::New(Kind::Dropped),
                         "ne" => Action::New(Kind::Early),
                         "x" => Action::StopSysArb,
@@ -2455,7 +2526,8 @@ fn parse_origin(sc: &Scenario, o: &str, foreign_ok: bool) -> Option<Origin> {
         "sys-task" => Some(Origin::SysTask),
         "foreign" if foreign_ok => Some(Origin::Foreign),
         _ => match parse_prefixed(o, "arb:") {
-            Some(k) if k < sc.kinds.len() && sc.kinds[k] != Kind::Early && sc.kinds[k] != Kind::Done => Some(Origin::Arb(k)),
+            // (a task on it must be able to run: not stopped, not retired, its thread not held)
+            Some(k) if k < sc.kinds.len() && !matches!(sc.kinds[k], Kind::Early | Kind::Done | Kind::Backlog) && !sc.retire.contains(&k) => Some(Origin::Arb(k)),
             _ => None,
         },
     }
@@ -2648,7 +2720,7 @@ fn run(a: &Args) {
 // generators
 // -------------------------------------------------------------------------------------------------
 
-const KINDS9: [&str; 6] = ["early", "dropped", "running", "busy", "done", "feeding"];
+const KINDS9: [&str; 7] = ["early", "dropped", "running", "busy", "done", "feeding", "backlog"];
 
 fn write_c09(w: &mut dyn Write, name: &str, kinds: &[usize], align: Option<usize>, stops: &[(String, i32, &str)], mode: &str, j: u64) {
     writeln!(w, "case {name} c09").unwrap();
